@@ -73,6 +73,24 @@ fn programs() -> Vec<Program> {
       ],
     },
     P {
+      name: "accepted: two entry points, the main function of one is also called from the other (a root and a callee at once)",
+      entry: "App+Tool",
+      modules: vec![
+        ("Tool", "class Main {\n  function main(): unit = {\n    Process.println(\"tool 1\"); Process.println(\"tool 2\"); Process.println(\"tool 3\"); Process.println(\"tool 4\"); Process.println(\"tool 5\");\n    Process.println(\"tool 6\"); Process.println(\"tool 7\"); Process.println(\"tool 8\"); Process.println(\"tool 9\"); Process.println(\"tool 10\");\n    Process.println(\"tool 11\"); Process.println(\"tool 12\"); Process.println(\"tool 13\"); Process.println(\"tool 14\"); Process.println(\"tool 15\");\n    Process.println(\"tool 16\"); Process.println(\"tool 17\"); Process.println(\"tool 18\"); Process.println(\"tool 19\"); Process.println(\"tool 20\");\n    Process.println(\"tool 21\"); Process.println(\"tool 22\"); Process.println(\"tool 23\"); Process.println(\"tool 24\"); Process.println(\"tool 25\");\n    Process.println(\"tool 26\"); Process.println(\"tool 27\"); Process.println(\"tool 28\"); Process.println(\"tool 29\"); Process.println(\"tool 30\")\n  }\n}\n"),
+        ("Runner", "import { Main } from Tool\nclass Runner {\n  function run(): unit = Main.main()\n}\n"),
+        ("App", "import { Runner } from Runner\nclass Main {\n  function main(): unit = {\n    Process.println(\"app start\");\n    Runner.run();\n    Process.println(\"app done\")\n  }\n}\n"),
+      ],
+    },
+    P {
+      name: "accepted: two entry points, a small main function of one is also called from the other",
+      entry: "App+Tool",
+      modules: vec![
+        ("Tool", "class Main {\n  function main(): unit = Process.println(\"tool\")\n}\n"),
+        ("Runner", "import { Main } from Tool\nclass Runner {\n  function run(): unit = Main.main()\n}\n"),
+        ("App", "import { Runner } from Runner\nclass Main {\n  function main(): unit = {\n    Process.println(\"app start\");\n    Runner.run();\n    Process.println(\"app done\")\n  }\n}\n"),
+      ],
+    },
+    P {
       name: "accepted: classes of the same name with different type-parameter lists in two modules",
       entry: "Main",
       modules: vec![
@@ -205,14 +223,18 @@ fn compile_once(p: &Program, alloc_order: &[usize], iter_order: Option<&[usize]>
       return Err(format!("iteration order {iter_order:?} not reached in 200000 fresh maps"));
     }
   };
-  let entry = refs[p.modules.iter().position(|m| m.0 == p.entry).unwrap()];
-  let r = pool.install(|| guarded(|| samlang_compiler::compile_sources(&mut heap, handles, vec![entry], false)));
+  // `entry` may list several entry modules ("App+Tool"): all are compiled as entry points, the
+  // launcher of the last one is the artefact that is run
+  let entry_names: Vec<&str> = p.entry.split('+').collect();
+  let observed_entry = *entry_names.last().unwrap();
+  let entries: Vec<ModuleReference> = entry_names.iter().map(|e| refs[p.modules.iter().position(|m| m.0 == *e).unwrap()]).collect();
+  let r = pool.install(|| guarded(|| samlang_compiler::compile_sources(&mut heap, handles, entries, false)));
   match r {
     Err(panic) => Err(format!("compile_sources panicked: {panic}")),
     Ok(Err(diag)) => Ok(Full { r: Result1 { accepted: false, diagnostics: diag, wasm_hash: 0, ts_hash: 0 }, emitted: None }),
     Ok(Ok(res)) => {
-      let ts = res.text_code_results.get(&format!("{}.ts", p.entry)).cloned().unwrap_or_default();
-      let wasm_js = res.text_code_results.get(&format!("{}.wasm.js", p.entry)).cloned().unwrap_or_default();
+      let ts = res.text_code_results.get(&format!("{observed_entry}.ts")).cloned().unwrap_or_default();
+      let wasm_js = res.text_code_results.get(&format!("{observed_entry}.wasm.js")).cloned().unwrap_or_default();
       let wasm_entry = wasm_js.rsplit_once("(binary).").map(|(_, r)| r.trim().trim_end_matches("();").to_string()).unwrap_or_default();
       let em = exec::Emitted {
         wasm: res.wasm_file,
